@@ -356,9 +356,10 @@ impl<ST: Service> ConnManager<ST> {
     // Notify the shutdown to all active connections.
     inner.shutdown_token.cancel();
 
-    // Wait for all connections to finish.
+    // Wait for all connections to say goodbye and finish. A connection that cannot get there (e.g. stuck in
+    // a write towards a peer that stopped reading) is not waited for beyond the request timeout.
     inner.task_tracker.close();
-    inner.task_tracker.wait().await;
+    let _ = tokio::time::timeout(inner.config.request_timeout, inner.task_tracker.wait()).await;
 
     info!(service_type = ST::NAME, "connection manager stopped");
 
@@ -377,6 +378,9 @@ impl<ST: Service> ConnManager<ST> {
     // Assign a unique handler
     let handler = inner.next_handler;
     inner.next_handler += 1;
+
+    // Keeps `shutdown` waiting until this connection has finished.
+    let _tracked = inner.task_tracker.token();
 
     let config = inner.config.clone();
     let message_buffer_pool = inner.message_buffer_pool.clone();
